@@ -13,21 +13,23 @@ import (
 // (`return ..., nil`). Cleanup calls whose failure cannot change the outcome
 // are exempt by name, one line of reason each.
 var errExempt = map[string]string{
-	"(*os.File).Close":                          "closing a read handle / already-synced temp file: failure does not change what was read or published",
-	"os.Remove":                                 "best-effort cleanup",
-	"os.RemoveAll":                              "handled by rule R06c where it matters",
-	"(io.Closer).Close":                         "closing a reader",
-	"(io.ReadCloser).Close":                     "closing a reader",
-	"(*io.PipeWriter).Close":                    "pipe close never fails",
-	"(*io.PipeReader).Close":                    "pipe close never fails",
-	"(*io.PipeWriter).CloseWithError":           "pipe close never fails",
-	"(*grog/internal/maps.MutexMap).Unlock":     "unlock of a held lock",
-	"(*grog/internal/caching.TaintCache).Clear": "a failed removal leaves the taint in place: the target is executed again by the next build (the safe direction); the error is logged",
-	"fmt.Println":                               "console output",
-	"fmt.Printf":                                "console output",
-	"fmt.Print":                                 "console output",
-	"fmt.Fprintf":                               "console output",
-	"fmt.Fprintln":                              "console output",
+	"(*os.File).Close":                              "closing a read handle / already-synced temp file: failure does not change what was read or published",
+	"os.Remove":                                     "best-effort cleanup",
+	"os.RemoveAll":                                  "handled by rule R06c where it matters",
+	"(io.Closer).Close":                             "closing a reader",
+	"(io.ReadCloser).Close":                         "closing a reader",
+	"(*io.PipeWriter).Close":                        "pipe close never fails",
+	"(*io.PipeReader).Close":                        "pipe close never fails",
+	"(*io.PipeWriter).CloseWithError":               "pipe close never fails",
+	"(*grog/internal/maps.MutexMap).Unlock":         "unlock of a held lock",
+	"(*grog/internal/caching.TaintCache).Clear":     "a failed removal leaves the taint in place: the target is executed again by the next build (the safe direction); the error is logged",
+	"(*go.starlark.net/starlark.Dict).Get":          "lookup with a constant string key: the error is only for unhashable keys; absence is the `found` result",
+	"(*go.starlark.net/starlarkstruct.Struct).Attr": "the error means 'no such attribute': the caller decides per attribute whether absence is an error",
+	"fmt.Println":                                   "console output",
+	"fmt.Printf":                                    "console output",
+	"fmt.Print":                                     "console output",
+	"fmt.Fprintf":                                   "console output",
+	"fmt.Fprintln":                                  "console output",
 }
 
 // probeExempt: calls whose error is *information* (a probe of local state); on
@@ -102,7 +104,7 @@ func droppedErrors(c *Check, fn *ssa.Function, extraExempt func(name string) boo
 		}
 		fwd := errForwarders(s)
 		isFwd := func(in ssa.Instruction) bool { return fwd[in] }
-		nilEdges := engine.NilErrEdgesOf(s)
+		nilEdges := nilEdgesIncluding(s)
 		eofEdges := engine.CutEdgesWhere(func(a engine.Atom) bool {
 			// `err == io.EOF` is end-of-stream, not a failure
 			if a.Op != "eq" || a.Other == nil {
@@ -117,7 +119,31 @@ func droppedErrors(c *Check, fn *ssa.Function, extraExempt func(name string) boo
 			}
 			return false
 		})
-		cut := func(b *ssa.BasicBlock, i int) bool { return nilEdges(b, i) || eofEdges(b, i) }
+		// `if os.IsNotExist(err) { return ... }` and falling through otherwise: the error was classified; the
+		// kinds that are not singled out resurface when the file is used. Only the "not that kind" edge is
+		// accepted — turning the singled-out kind into success is still a dropped error.
+		idxErr := engine.ErrResultIndex(s.Common().Signature())
+		classifiedAway := engine.CutEdgesWhere(func(a engine.Atom) bool {
+			if a.Op != "false" {
+				return false
+			}
+			call, _ := engine.CallOf(a.V)
+			if call == nil {
+				return false
+			}
+			switch engine.CalleeName(call) {
+			case "os.IsNotExist", "os.IsExist", "errors.Is", "errors.As":
+			default:
+				return false
+			}
+			for _, o := range engine.Origins(call.Common().Args[0]) {
+				if c2, i := engine.CallOf(o); c2 == s && i == idxErr {
+					return true
+				}
+			}
+			return false
+		})
+		cut := func(b *ssa.BasicBlock, i int) bool { return nilEdges(b, i) || eofEdges(b, i) || classifiedAway(b, i) }
 		if ok, at := engine.PathExists(fn, s, successReturn, engine.PathQuery{CutEdge: cut, CutInstr: isFwd}); ok {
 			out = append(out, droppedErr{s, at})
 		} else if engine.InLoop(s) {
@@ -130,6 +156,26 @@ func droppedErrors(c *Check, fn *ssa.Function, extraExempt func(name string) boo
 		}
 	}
 	return out
+}
+
+// nilEdgesIncluding: the branch establishes "nil" for a value one of whose reaching definitions is this
+// call's error (an error variable assigned on two branches and tested once after the merge).
+func nilEdgesIncluding(s ssa.CallInstruction) func(b *ssa.BasicBlock, succ int) bool {
+	idx := engine.ErrResultIndex(s.Common().Signature())
+	return engine.CutEdgesWhere(func(a engine.Atom) bool {
+		if a.Op != "nil" {
+			return false
+		}
+		for _, o := range engine.Origins(a.V) {
+			if o == nil {
+				continue
+			}
+			if call, i := engine.CallOf(o); call == s && i == idx {
+				return true
+			}
+		}
+		return false
+	})
 }
 
 // errorIsNegativeAnswer: every branch edge taken when the call's error is non-nil leads (ignoring
